@@ -178,6 +178,10 @@ func init() {
 		e.path.loopBound = int(args[0].(int64))
 		return nil
 	}
+	intrinsics[ndPkg+"WorkBound"] = func(e *Exec, _ *frame, args []Value) Value {
+		e.path.workBound = int(args[0].(int64))
+		return nil
+	}
 	intrinsics[ndPkg+"Thorough"] = func(e *Exec, _ *frame, args []Value) Value { return e.w.tier == "thorough" }
 	intrinsics[ndPkg+"TempRoot"] = func(e *Exec, _ *frame, args []Value) Value { return mkStr("/vfs/r1/r2") }
 	intrinsics[ndPkg+"Symbolic"] = func(e *Exec, _ *frame, args []Value) Value { return true }
